@@ -180,6 +180,12 @@ def c01(tier, seed):
               "polygons (3-7 vertices, 1-3 loops, tall edges); non-trivial = some pixel partially covered; distinct by scenario")
     v.trusted = ["harness path construction and pixel projection (harness/src/cov.rs)"]
     scs = []
+    # design level: the scan-line machine (I-spec, Raster.tla) refines the coverage model on every
+    # triangle of a small grid in 9 positions relative to the surface, with its safety invariants
+    r = run_tlc("C01", "MC_Raster", env={"N": 4 if thorough else 3}, workers=12, timeout=2400)
+    v.add_tlc(r)
+    v.extra["ip_refinement"] = ("MC_Raster: Raster.tla (add_edge/insert/scan/step/sort/reset with the code's fixed-point arithmetic) "
+                                "refines Coverage.tla; %d states, invariants SortedWhenScanned, NoMaskOverflow, IdleAfterReset, RefinesCoverage" % r.distinct)
     g, s1 = gen_scenarios("C01", "Gen_Fill", env={"N": 5 if thorough else 4, "NV": 3, "NL": 1, "NVAR": 3 if thorough else 2}, timeout=1200)
     v.add_tlc(g)
     scs += s1
@@ -394,7 +400,17 @@ def c11(tier, seed):
     scs2 = canvas_gen("C11", v, "xform", 2, 28 if th else 8, salt=seed)
     scs2 += canvas_gen("C11", v, "xform", 3, 3, draws=2, simulate=3000 if th else 500, depth=6, seed=seed, salt=seed)
     canvas_validate("C11", v, scs2, "canvas", {"C11T", "C02", "C03", "C02N"})
-    v.samples = [scs[0], scs[-1], scs2[0]]
+    # sources are fixed in user space: every source kind under every non-identity transform of the
+    # shade menu, validated by the C12/C13 oracles (colour = source at T^-1 of the pixel centre)
+    scs3 = []
+    for kind in ("image", "linear", "radial", "sweep", "two_circle"):
+        g, s1 = gen_scenarios("C11", "Gen_Shade", env={"KIND": kind, "SUB": (2 if th else 9) if kind == "image" else (2 if th else 6), "SALT": seed + 2}, timeout=1500)
+        v.add_tlc(g)
+        # (sweep gradients with a non-zero start angle are a known finding of C12 and are kept out of this family)
+        scs3 += [x for x in s1 if x["ctm"]["m"] != [1, 0, 0, 1, 0, 0] and x.get("via", "fill") == "fill"
+                 and not (kind == "sweep" and x["src"]["start_angle"] != 0)]
+    simple_validate("C11", v, scs3, "shade", "Trace_Shade", sigfn=lambda sc, tup: {"fam": "shade", "kind": sc["src"]["kind"]})
+    v.samples = [scs[0], scs[-1], scs2[0], scs3[0]]
     return v.finish()
 
 
@@ -611,14 +627,15 @@ def c12(tier, seed):
               "every channel must lie within 4 of the premultiplied alpha-scaled colour range over t +- 3/255; non-trivial = something drawn")
     v.trusted = ["harness Src render of the source (harness/src/shade.rs)", "interval arithmetic of Shade.tla GradWindow (sound, may be wider than the text)"]
     scs = []
-    for kind in ("linear", "radial"):
-        g, s1 = gen_scenarios("C12", "Gen_Shade", env={"KIND": kind, "SUB": 1 if th else 3, "SALT": seed}, timeout=1500)
+    for kind in ("linear", "radial", "sweep", "two_circle"):
+        g, s1 = gen_scenarios("C12", "Gen_Shade", env={"KIND": kind, "SUB": 1 if th else (5 if kind in ("linear", "radial") else 9), "SALT": seed}, timeout=1500)
         v.add_tlc(g)
         scs += s1
     v.exhaustive = th
     scs += known_scenarios("C12", "shade")
     simple_validate("C12", v, scs, "all", "Trace_Shade",
-                    sigfn=lambda sc, tup: {"fam": "shade", "kind": sc["src"]["kind"], "alpha_lt_1": sc["alpha"][0] != sc["alpha"][1]})
+                    sigfn=lambda sc, tup: {"fam": "shade", "kind": sc["src"]["kind"],
+                                           "sweep_start_nonzero": sc["src"]["kind"] == "sweep" and sc["src"].get("start_angle", 0) != 0})
     v.samples = [scs[0], scs[-1]]
     return v.finish()
 
@@ -676,6 +693,9 @@ def c09(tier, seed):
             g, s1 = gen_scenarios("C09", "Gen_Stroke", env=env)
         v.add_tlc(g)
         scs += s1
+    g, s1 = gen_scenarios("C09", "Gen_Stroke", env={"FAMILY": 5, "DASH": 2, "NVAR": 2 if th else 1, "NH": 12 if th else 5, "SALT": seed})
+    v.add_tlc(g)
+    scs += s1
     scs += known_scenarios("C09", "stroke")
     v.exhaustive = th
     simple_validate("C09", v, scs, "all", "Trace_Dash", sigfn=stroke_sig, timeout=3000)
@@ -716,10 +736,10 @@ def c16(tier, seed):
               "two-op path (subsampled) and simulated longer ones; each flattened path is matched op by op against Flatten.tla; "
               "non-trivial = the path contains a curve (all do)")
     v.trusted = ["harness rounding of output vertices to 1/1024 px (harness/src/pathfam.rs)", "Curve.tla fine polyline and deviation bound"]
-    g, scs = gen_scenarios("C16", "Gen_Curve", env={"FAM": "flatten", "NOPS": 2, "NVAR": 1, "SALT": seed}, timeout=1200)
+    # every op-kind string of length 2..5 (quick: 2..4) that contains a curve
+    g, scs = gen_scenarios("C16", "Gen_Curve", env={"FAM": "flatten", "MODE": "strings", "NOPS": 5 if th else 4, "NVAR": 1, "SALT": seed}, timeout=1200)
     v.add_tlc(g)
-    step = 12 if th else 80
-    scs = scs[seed % step::step]
+    v.exhaustive = True
     g, s2 = gen_scenarios("C16", "Gen_Curve", env={"FAM": "flatten", "NOPS": 5, "NVAR": 1, "SALT": seed}, simulate=3000 if th else 400, depth=14, seed=seed, workers=1)
     v.add_tlc(g)
     scs += s2
